@@ -64,6 +64,8 @@ def ops():
         "getitem_index_tensor": lambda x: x[idx(x, 2, 0)], "getitem_bool": lambda x: x[torch.tensor([True, False, True][: x.shape[0]])], "getitem_ellipsis": lambda x: x[...], "getitem_tuple_slices": lambda x: x[1:3, :, ...],
         "getitem_channel_slice": lambda x: x[:, 0:1], "getitem_channel_int": lambda x: x[:, 0], "getitem_item_channel": lambda x: x[1, 0], "getitem_spatial_crop": lambda x: x[..., 1:3], "getitem_full_slices": lambda x: x[:, :, ...],
         "getitem_numpy": lambda x: x[np.array([1, 2][: max(1, x.shape[0] - 1)])],
+        "getitem_bool_list": lambda x: x[[True, False, True][: x.shape[0]]], "getitem_bool_numpy": lambda x: x[np.array([False, True, True][: x.shape[0]])], "getitem_bool_tuple": lambda x: x[torch.tensor([False, True, True][: x.shape[0]]), ...],
+        "getitem_neg_list": lambda x: x[[-1, 0]], "getitem_single_list": lambda x: x[[1]], "getitem_int_tuple": lambda x: x[(1,)],
         # selection along batch dim
         "narrow0": lambda x: x.narrow(0, 1, 2), "narrow_last": lambda x: x.narrow(-1, 0, 2), "select0": lambda x: x.select(0, 1), "select1": lambda x: x.select(1, 0),
         "index_select0": lambda x: x.index_select(0, idx(x, 2, 0)), "index_select0_all": lambda x: x.index_select(0, idx(x, 2, 0, 1)), "index_select1": lambda x: x.index_select(1, idx(x, 0)),
@@ -74,7 +76,13 @@ def ops():
         "cat0": lambda x: torch.cat([x, x]), "cat0_rev": lambda x: torch.cat([x[1:], x[:1]]), "cat1": lambda x: torch.cat([x, x], dim=1), "cat_last": lambda x: torch.cat([x, x], dim=-1), "stack0": lambda x: torch.stack([x, x]),
         "split1": lambda x: x.split(1), "split2": lambda x: x.split(2), "split_list": lambda x: x.split([1, 2]), "split_dim1": lambda x: x.split(1, dim=1), "torch_split": lambda x: torch.split(x, [2, 1]),
         "chunk3": lambda x: x.chunk(3), "chunk2": lambda x: x.chunk(2), "chunk_dim1": lambda x: x.chunk(2, dim=1), "unbind0": lambda x: x.unbind(0), "unbind1": lambda x: x.unbind(1),
-        "tensor_split3": lambda x: x.tensor_split(3), "tensor_split2": lambda x: x.tensor_split(2), "tensor_split_indices": lambda x: x.tensor_split([1]), "tensor_split_indices2": lambda x: x.tensor_split((1, 2)),
+        "tensor_split3": lambda x: x.tensor_split(3), "tensor_split2": lambda x: x.tensor_split(2), "tensor_split_indices": lambda x: x.tensor_split([1]), "tensor_split_indices2": lambda x: x.tensor_split((1, 2)), "tensor_split_tensor_indices": lambda x: x.tensor_split(torch.tensor([1, 2])), "torch_tensor_split_tensor": lambda x: torch.tensor_split(x, torch.tensor([1])),
+        "tensor_split_sections_kw": lambda x: torch.tensor_split(x, sections=3), "tensor_split_dim_positional": lambda x: x.tensor_split(2, 1), "torch_tensor_split_indices_kw": lambda x: torch.tensor_split(x, indices=[1, 2]),
+        "cat_dim_positional": lambda x: torch.cat([x, x], 1), "cat_tensors_kw": lambda x: torch.cat(tensors=[x, x], dim=0), "split_dim_positional": lambda x: torch.split(x, 1, 1), "split_size_kw": lambda x: x.split(split_size=2),
+        "split_neg_batch_dim": lambda x: x.split(1, dim=-x.ndim), "cat_neg_batch_dim": lambda x: torch.cat([x, x], dim=-x.ndim), "tensor_split_neg_batch_dim": lambda x: x.tensor_split(2, dim=-x.ndim),
+        "unbind_neg_batch_dim": lambda x: x.unbind(-x.ndim), "chunk_neg_batch_dim": lambda x: x.chunk(2, dim=-x.ndim), "index_select_neg_batch_dim": lambda x: x.index_select(-x.ndim, idx(x, 1, 2)), "select_neg_batch_dim": lambda x: x.select(-x.ndim, 1),
+        "rebatch_from_iteration": lambda x: type(x).from_images(list(x)) if hasattr(type(x), "from_images") and len(x) else x, "append_self": lambda x: x.append(x) if hasattr(x, "append") else torch.cat([x, x]),
+        "chunk_dim_positional": lambda x: x.chunk(2, 1), "unbind_dim_positional": lambda x: x.unbind(1), "narrow_kw": lambda x: x.narrow(dim=0, start=1, length=2), "select_kw": lambda x: x.select(dim=0, index=1), "tensor_split_dim_kw": lambda x: x.tensor_split(2, dim=0),
         "iterate": lambda x: list(x),
         # reordering
         "flip0": lambda x: x.flip(0), "flip_dims": lambda x: x.flip((0, 1)), "flipud": lambda x: x.flipud(), "torch_flip0": lambda x: torch.flip(x, [0]), "roll0": lambda x: x.roll(1, 0), "roll_flat": lambda x: x.roll(1),
@@ -101,6 +109,7 @@ ELEMENTWISE = {"add_scalar", "mul_self", "neg", "sin", "abs", "clamp", "where", 
 CARRIER_OVERRIDE = {
     "mean_dim1": lambda c: c.amax(1), "mean_dim1_keep": lambda c: c.amax(1, keepdim=True), "sum_last_keep": lambda c: c.amax(-1, keepdim=True),
     "max_dim0": lambda c: c.sum(0), "sum_all": lambda c: c.amax() * 0 + 7.0,
+    "rebatch_from_iteration": lambda c: c, "append_self": lambda c: __import__("torch").cat([c, c]),
 }
 # operations that reorder, repeat or mix entries along the batch dimension without changing what the generic
 # __torch_function__ looks at (one mechanism: grids are re-attached whenever the shapes happen to match)
